@@ -1013,11 +1013,11 @@ func execC07(x *hysim.Run) {
 	// ---- drain: no more scheduling faults; let everything in flight settle
 	x.Drain(10 * time.Millisecond)
 	synctest.Wait()
-	for i := 0; i < 20000 && len(w.in) > 0 && !w.killed; i++ {
+	for i := 0; i < 20000 && len(w.in) > 0 && !w.killed && !x.Violated(); i++ {
 		time.Sleep(w.maxDial + 10*time.Millisecond)
 		synctest.Wait()
 	}
-	if len(w.in) != 0 && !w.killed {
+	if len(w.in) != 0 && !w.killed && !x.Violated() {
 		hysim.HarnessBug("input not consumed after drain: %d", len(w.in))
 	}
 	clean := x.StallCount() == 0 && !faultsUsed && w.dialFail == 0 && !w.killed
